@@ -126,6 +126,28 @@ def make_cases(ctx):
                     s = rng.choice(["%d %s %02d" % (d2, mn, yy), "%s %d, %02d" % (mn, d2, yy), "%02d/%02d/%02d" % (m, d2, yy)])
                     add("yy", pref, base, s, m=m, d=d2, yy=yy)
     gap_cases()
+    # timezone-aware reference times for the forms that take calendar fields from the reference (weekday alone, month
+    # alone, day and month): the reference's OWN calendar day counts, whatever other zone the same instant could be
+    # written in; these run on parsers built next to a parser for the same instant in another zone
+    for _ in range(250 if ctx.quick() else 4000):
+        by = rng.choice([2001, 2015, 2021, 2024, 2036])
+        bm, bd = rng.randint(1, 12), rng.randint(4, 25)
+        base = (by, bm, bd) + rng.choice([(0, 30, 0, 0), (2, 30, 0, 0), (21, 30, 0, 0), (23, 45, 0, 0), (12, 0, 0, 0)])
+        off = rng.choice([0, 3600, -18000, 19800, 32400, -28800, 43200])
+        pref = rng.choice(PREFS)
+        r_ = rng.random()
+        if r_ < 0.6:
+            w = rng.randrange(7)
+            add("weekday", pref, base, cap(WD[w] if rng.random() < 0.6 else WD[w][:3], rng), w=w)
+        elif r_ < 0.8:
+            m = rng.randint(1, 12)
+            add("month", pref, base, cap(MON[m - 1], rng), m=m)
+        else:
+            m = rng.randint(1, 12)
+            d = rng.choice([1, 15, 28])
+            add("daymonth", pref, base, "%d %s" % (d, MON[m - 1]), m=m, d=d)
+        cases[-1]["settings"]["RELATIVE_BASE"] = {"dt": list(base), "tz": off}
+        cases[-1]["awarebase"] = True
     # a clock time that carries its own zone, under every TIMEZONE: the string's zone decides on which side of the
     # reference the candidate lies (zero-offset zones included), TIMEZONE only re-expresses the result
     SZ = [(" UTC", 0), (" GMT", 0), ("Z", 0), (" +00:00", 0), (" EST", -18000), (" +02:00", 7200), (" -03:30", -12600),
@@ -163,7 +185,7 @@ def run(ctx):
     cases = core.replay_cases(ctx) or make_cases(ctx)
     # a share of the cases runs on parsers that were all constructed before any of them was used (state shared behind
     # the constructor would surface as another case's result)
-    results = core.run_cases_prebuilt(ctx, cases, lambda i: i % 4 == 0 and not ctx.replay, size=5)
+    results = core.run_cases_prebuilt(ctx, cases, lambda i: (i % 4 == 0 or cases[i].get("awarebase")) and not ctx.replay, size=5)
     # ---- no RELATIVE_BASE: the reference is the current instant (UTC).  Clock times some hours before / after now, every
     # preference, in worker processes whose local zone is far from UTC: the clock of the PROCESS is not the reference
     if not ctx.replay:
